@@ -368,6 +368,23 @@ public:
         World &w = World::get();
         std::string err;
         r.x.tag = 2;
+        // A healthy TLS connection served by the same thread: what a hostile peer does to one
+        // connection must not harm another (the OpenSSL error queue is per thread).
+        Ep by_a, by_b;
+        bool bystander = r.tls && cfg.ch(2) == 0;
+        if (bystander) {
+            PairOpts po;
+            po.tp = cfg.ch(2) ? TLS : BTLS;
+            po.client_tag = 20;
+            po.server_conn_tag = 21;
+            std::string e2 = make_pair(po, by_a, by_b);
+            VF_CHECK(e2.empty(), "setup: bystander pair: %s", e2.c_str());
+            c.cls("bystander-tls-connection");
+            // drain session tickets so that the next receive is a plain would-block
+            uint8_t tmp[64];
+            for (int i = 0; i < 20; i++) { x_receive(by_a, tmp, sizeof(tmp)); x_receive(by_b, tmp, sizeof(tmp)); }
+        }
+        struct ByGuard { Ep &a, &b; ~ByGuard() { x_close(a); x_close(b); } } by_guard{by_a, by_b};
         // ---- establish
         if (r.xcm_accept_side) {
             Server &sv = w.server(r.tp, false, err);
@@ -529,6 +546,23 @@ public:
         if (o.ok && r.tls_garbage) {
             // never usable; terminal report within the bound (unless the peer stays silent)
             VF_CHECK(!r.usable_seen || tls_phase == 2, "TLS garbage: xcm_finish had succeeded");
+        }
+        if (o.ok && bystander) {
+            uint8_t tmp[256];
+            for (Ep *e : {&by_a, &by_b}) {
+                int rc = x_receive(*e, tmp, sizeof(tmp));
+                VF_CHECK(rc < 0 && errno == EAGAIN, "a healthy %s connection in the same thread reports %d %s on receive after the hostile input on the other connection",
+                         e == &by_a ? "client-side" : "server-side", rc, rc < 0 ? errname(errno) : "");
+                rc = x_finish(*e);
+                VF_CHECK(rc == 0, "a healthy connection in the same thread reports %s on finish after the hostile input on the other connection", errname(errno));
+            }
+            uint8_t m[100];
+            prf_fill(4711, m, sizeof(m));
+            int rc = x_send(by_a, m, sizeof(m));
+            VF_CHECK(rc == 0 || rc == 100, "send on the healthy bystander connection failed: %s", errname(errno));
+            int got = -1;
+            for (int i = 0; i < 2000 && got < 0; i++) { x_finish(by_a); got = x_receive(by_b, tmp, sizeof(tmp)); if (got < 0 && errno != EAGAIN) break; if (got < 0) usleep(100); }
+            VF_CHECK(got == 100 && memcmp(tmp, m, 100) == 0, "the healthy bystander connection did not deliver a message after the hostile input (rc %d %s)", got, got < 0 ? errname(errno) : "");
         }
         if (illegal_hdr || header_split || r.tls_garbage || r.tls_post_corrupt) c.nt();
         if (illegal_hdr) c.cls("illegal-header");
